@@ -3,6 +3,7 @@
 // classes in-process, and prints one canonical line per case.  Doubles travel as 16 hex
 // digits (IEEE-754 bit pattern); matrices are column-major (Eigen's storage order).
 #pragma once
+#include <cerrno>
 #include <Eigen/Dense>
 #include <cstdint>
 #include <cstring>
@@ -24,6 +25,8 @@ struct Toks {
     bool empty() const { return p >= t.size(); }
     std::string tok() { if (p >= t.size()) throw BadArgs("eol"); return t[p++]; }
     long nat() { std::string s = tok(); char* e = nullptr; long v = std::strtol(s.c_str(), &e, 10); if (*e) throw BadArgs("nat:" + s); return v; }
+    // the full range of std::size_t (indices beyond 2^31, 2^32, 2^63)
+    unsigned long long unat() { std::string s = tok(); char* e = nullptr; errno = 0; unsigned long long v = std::strtoull(s.c_str(), &e, 10); if (*e || errno || s.empty() || s[0] == '-') throw BadArgs("unat:" + s); return v; }
     bool flag() { return nat() != 0; }
     double dbl() {
         std::string s = tok(); if (s.size() != 16) throw BadArgs("hex:" + s);
